@@ -11,8 +11,8 @@
   '.', '!', '?', '\n'.  In valid UTF-8 every byte < 0x80 is a whole char and `char_indices` yields
   exactly the positions whose byte is not a continuation byte (0x80..0xBF), so the loops are
   modelled over bytes.  `MvModel/SnippetChars.lean` has the literal char-level version (decoding
-  chars the way `str::Chars` does) and `MvProps/C35Chars.lean` proves that it equals this model on
-  every valid UTF-8 text.
+  chars the way `str::Chars` does) and `MvModel/SnippetCharsLemmas.lean` (`computeC_eq`) proves that it
+  equals this model on every valid UTF-8 text.
 
   `fx : Bool` selects the code variant:  `false` = the code as found (commit 397799f),
   `true` = with /verif/fixes/C35.diff (saturating add, `max_snippets == 0` gives no slices,
